@@ -820,7 +820,11 @@ impl<N: Marker> Drop for Node<N> {
         let mut stack = Vec::new();
         push_children(&mut stack, std::mem::replace(&mut self.inner, Inner::Unit));
         while let Some(child) = stack.pop() {
+            #[cfg(feature = "verif-hooks")]
+            crate::verif::yield_point();
             if let Some(mut child) = Arc::into_inner(child) {
+                #[cfg(feature = "verif-hooks")]
+                crate::verif::probe(8);
                 push_children(&mut stack, std::mem::replace(&mut child.inner, Inner::Unit));
             }
         }
